@@ -477,6 +477,48 @@ def option_identity(ctx):
         a, 'cpath')
     ctx.ob(R, 'CcBaseCompiler._search_dirs|cpath-override', ok, sd.node,
            'the cpath argument does not override CPATH for the probe')
+    # the probe runs the compiler as the build will: with the flags from
+    # the environment (-nostdinc, --sysroot=... change the default list)
+    ok = bool(envs) and all(has(e.arg(0), 'self', 'global_flags') and has(
+        e.arg(0), 'self', 'command') for e in envs)
+    ctx.ob(R, 'CcBaseCompiler._search_dirs|probed-with-environment-flags',
+           ok, sd.node, 'the default include directories are probed '
+           'without the environment flags: with CFLAGS=-nostdinc an '
+           'include_dir for a would-be default directory is dropped')
+    # -l<name> extraction: the pattern is anchored as a whole
+    from ..consteval import const_eval as _ce
+    li = F.fn('bfg9000.tools.cc.linker:CcLinker.__init__')
+    pats = []
+    for n_ in ast.walk(li.node):
+        if isinstance(n_, ast.Call) and unparse(n_.func) in (
+                're.compile', 'compile') and n_.args:
+            # the list of alternatives is built at run time: fold the
+            # pattern for a sample list (whatever the local is called)
+            env_ = {x.args[0].id: ['lib(.*)\\.a', 'lib(.*)\\.so']
+                    for x in ast.walk(n_.args[0])
+                    if isinstance(x, ast.Call) and isinstance(
+                        x.func, ast.Attribute) and x.func.attr == 'join' and
+                    len(x.args) == 1 and isinstance(x.args[0], ast.Name)}
+            p_ = _ce(repo, li.module, n_.args[0], li.cls, env_)
+            if isinstance(p_, str):
+                pats.append(p_)
+    import re as _re
+
+    def libname(p_, s_):
+        m_ = _re.match(p_, s_)
+        if not m_:
+            return None
+        return next((g_ for g_ in m_.groups() if g_ is not None), None)
+    Q.require(bool(pats), 'CcLinker.__init__: library-name pattern not '
+              'found')
+    ok = bool(pats) and all(
+        libname(p_, 'libfoo.a') == 'foo' and libname(
+            p_, 'libfoo.so') == 'foo' and libname(
+                p_, 'libvendor.api.so') == 'vendor.api' and libname(
+                    p_, 'libfoo.a.bak') is None for p_ in pats)
+    ctx.ob(R, 'CcLinker._lib_re|whole-name-anchored', ok, li.node,
+           'the library-name pattern {} is not anchored as a whole: '
+           '`libvendor.api.so` is read as -lvendor'.format(pats))
     F = _facts(ctx)
     cb = F.fn('bfg9000.tools.cc:CcBuilder.__init__')
     gets = F.effects(cb, lambda e: e.name == 'getvar', depth=1)
